@@ -1660,10 +1660,247 @@ Proof.
   destruct (cglobal c); cbn in *; subst; reflexivity.
 Qed.
 
+(* ================================================================== 9. main models loaded from a string *)
+Section StrPhase.
+  Variable fs : list file.
+  Variable c : cfg.
+
+  (* the load phase of a string main model, from the state s0 after begin_op *)
+  Lemma load_str_phase s0 k fc r s4 :
+    let n0 := length (heap s0) in
+    Inv n0 s0 ->
+    (if (clazy c && is_nil (frefs fc))%bool then (None, alloc k fc s0)
+     else load_stmts (load_file fs c (S (length fs)) false) (length (heap s0)) k (fimports fc) (alloc k fc s0)) = (r, s4) ->
+    Step n0 s0 s4 /\ In (length (heap s0)) (constr s4) /\ (LR n0 s0 -> r = None -> LR n0 s4).
+  Proof.
+    intros n0 HI E.
+    set (m := length (heap s0)) in *. set (s2 := alloc k fc s0) in *.
+    assert (Hst2 : Step n0 s0 s2) by (apply Step_alloc; exact HI).
+    assert (Hc2 : In m (constr s2)) by (subst s2; autorewrite with st; left; reflexivity).
+    assert (Hh2 : nth_error (heap s2) m = Some (mkMinfo k (curop s0) fc)).
+    { subst s2 m. autorewrite with st. rewrite nth_error_app2 by lia. rewrite Nat.sub_diag. reflexivity. }
+    assert (Hcl : loader_cl n0 (load_file fs c (S (length fs)) false)).
+    { intros g' s' HI' Hg'. destruct (load_file_cl fs c n0 (S (length fs)) false g' s' HI' Hg') as [A [B _]]. split; [exact A|].
+      intros m' Hm'. destruct (B m' Hm') as [B1 [_ [_ B3]]]. split; [exact B1 | apply B3; reflexivity]. }
+    assert (Hlr : loader_lr n0 (load_file fs c (S (length fs)) false))
+      by (intros g' s' HI' HL' Hg' m' Hm'; apply (load_file_lr fs c n0 (S (length fs)) false g' s' HI' HL' Hg' m' Hm')).
+    destruct (clazy c && is_nil (frefs fc))%bool.
+    - inversion E; subst. split; [exact Hst2|]. split; [exact Hc2|]. intros HL _. eapply LR_ext; [| |exact HL]; reflexivity.
+    - destruct (load_stmts_cl n0 _ _ _ _ _ _ _ _ Hcl (st_inv _ _ _ Hst2) (le_n _) Hc2 Hh2 eq_refl E) as [Hst4 _].
+      split; [eapply Step_trans; eassumption|]. split; [apply (st_constr _ _ _ Hst4); exact Hc2|].
+      intros HL Hr. subst r. eapply load_stmts_lr; [exact Hcl | exact Hlr | apply (st_inv _ _ _ Hst2) | | apply le_n | exact Hc2 | exact Hh2 | reflexivity | exact E].
+      eapply LR_ext; [| |exact HL]; reflexivity.
+  Qed.
+End StrPhase.
+
+Lemma Stable_LR s : Stable s -> LocReg s -> LR (length (heap s)) s.
+Proof.
+  intros HS HL x g t Hin [Hx|Hx]; [|apply (HL x g t Hin Hx)]. destruct HS as [_ [_ [_ [_ E]]]]. destruct (E x g t Hin). lia.
+Qed.
+Lemma LocReg_begin_op c s : LocReg s -> LocReg (begin_op c s).
+Proof. intro HL. unfold begin_op. destruct (cglobal c); [exact HL|]. intros x g t _ []. Qed.
+
+Theorem load_str_failure_clean_raw fs c fc s e s' :
+  Stable s -> load_str_raw fs c fc s = (inl e, s') ->
+  allm s' = allm (begin_op c s) /\ (forall x, x < length (heap s) -> local_of x s' = local_of x s) /\ Stable s'.
+Proof.
+  intros HS. unfold load_str_raw. set (s0 := begin_op c s).
+  pose proof (Stable_begin_op c s HS) as HS0. fold s0 in HS0.
+  destruct (Stable_Inv s0 HS0) as [HI0 Hold0].
+  assert (Eh0 : heap s0 = heap s) by (subst s0; unfold begin_op; destruct (cglobal c); reflexivity).
+  assert (El0 : forall x, local_of x s0 = local_of x s) by (intro x; subst s0; unfold begin_op; destruct (cglobal c); reflexivity).
+  set (n0 := length (heap s0)) in *.
+  destruct (fsyn fc).
+  { intro H. inversion H; subst. split; [reflexivity|]. split; [intros; apply El0 | exact HS0]. }
+  destruct (if (clazy c && is_nil (frefs fc))%bool then _ else _) as [r s4] eqn:E4.
+  destruct (load_str_phase fs c s0 (anon_key fs s0) fc r s4 HI0 E4) as [Hst [Hc _]]. fold n0 in Hst.
+  assert (Hold : old n0 s4 = allm s0) by (rewrite (st_old _ _ _ Hst); unfold old; apply filter_id; exact Hold0).
+  assert (Hloc : forall s'', (forall x, x < n0 -> local_of x s'' = local_of x s4) -> forall x, x < length (heap s) -> local_of x s'' = local_of x s).
+  { intros s'' H x Hx. assert (Hx0 : x < n0) by (unfold n0; rewrite Eh0; exact Hx). rewrite (H x Hx0), (st_loc _ _ _ Hst x Hx0). apply El0. }
+  destruct r as [e1|].
+  - intro H. inversion H; subst. destruct (handler_clean n0 s4 n0 (st_inv _ _ _ Hst) (le_n _)) as [Hh Ha].
+    split; [rewrite Ha; exact Hold|]. split; [apply Hloc; intros x Hx; apply (st_loc _ _ _ Hh x Hx)|].
+    apply (Inv_old_Stable n0); [apply (st_inv _ _ _ Hh) | rewrite Ha, Hold; exact Hold0].
+  - intro H.
+    assert (Hcached : forall v, In v (vals s0) -> v < n0).
+    { intros v Hin. apply in_map_iff in Hin as [[k' v'] [<- Hin]]. specialize (Hold0 _ Hin). unfold is_old in Hold0. cbn in *.
+      apply Nat.ltb_lt. exact Hold0. }
+    destruct (finish_main_clean n0 c _ n0 s0 s4 e s' (st_inv _ _ _ Hst) (le_n _) Hc Hold Hcached H) as [HI' [Ha' Hl']].
+    split; [exact Ha'|]. split; [apply Hloc; exact Hl'|]. apply (Inv_old_Stable n0); [exact HI' | rewrite Ha'; exact Hold0].
+Qed.
+
+Lemma load_str_raw_failure_frame fs c fc s e s1 :
+  Stable s -> load_str_raw fs c fc s = (inl e, s1) ->
+  firstn (length (heap s)) (heap s1) = heap s /\
+  filter (ltn (length (heap s))) (constr s1) = filter (ltn (length (heap s))) (constr s) /\
+  filter (keyltn (length (heap s))) (targets s1) = filter (keyltn (length (heap s))) (targets s) /\
+  curop s1 = curop s.
+Proof.
+  intros HS. unfold load_str_raw. set (s0 := begin_op c s).
+  pose proof (Stable_begin_op c s HS) as HS0. fold s0 in HS0.
+  destruct (Stable_Inv s0 HS0) as [HI0 Hold0].
+  assert (E0 : heap s0 = heap s /\ constr s0 = constr s /\ targets s0 = targets s /\ curop s0 = curop s)
+    by (subst s0; unfold begin_op; destruct (cglobal c); auto).
+  destruct E0 as [Eh0 [Ec0 [Et0 Eo0]]].
+  set (n0 := length (heap s0)) in *.
+  assert (En : n0 = length (heap s)) by (unfold n0; rewrite Eh0; reflexivity).
+  destruct (fsyn fc).
+  { intro H. inversion H; subst s1. rewrite Eh0, Ec0, Et0, Eo0. split; [apply firstn_all | auto]. }
+  destruct (if (clazy c && is_nil (frefs fc))%bool then _ else _) as [r s4] eqn:E4.
+  destruct (load_str_phase fs c s0 (anon_key fs s0) fc r s4 HI0 E4) as [Hst [Hc _]]. fold n0 in Hst.
+  destruct r as [e1|].
+  - intro H. inversion H; subst. rewrite heap_handler, constr_handler, targets_handler, curop_handler.
+    rewrite <- En, <- Eh0, <- Ec0, <- Et0, <- Eo0. fold n0.
+    split; [apply prefix_firstn; apply (st_heap _ _ _ Hst)|]. split; [apply (st_cold _ _ _ Hst)|].
+    split; [rewrite (st_tgt _ _ _ Hst); reflexivity | apply (st_curop _ _ _ Hst)].
+  - intro H. destruct (finish_main_failure_frame n0 c _ n0 _ s4 e s1 (st_inv _ _ _ Hst) (le_n _) H) as [Fh [Fc [Ft Fo]]].
+    rewrite <- En, <- Eh0, <- Ec0, <- Et0, <- Eo0. fold n0. rewrite Fh, Fc, Ft, Fo.
+    split; [apply prefix_firstn; apply (st_heap _ _ _ Hst)|]. split; [apply (st_cold _ _ _ Hst)|].
+    split; [rewrite (st_tgt _ _ _ Hst); reflexivity | apply (st_curop _ _ _ Hst)].
+Qed.
+
+Theorem load_str_stable_raw fs c fc s : Stable s -> Stable (snd (load_str_raw fs c fc s)).
+Proof.
+  intro HS. destruct (load_str_raw fs c fc s) as [[e|m] s'] eqn:E; cbn [snd].
+  - destruct (load_str_failure_clean_raw fs c fc s e s' HS E) as [_ [_ H]]. exact H.
+  - revert E. unfold load_str_raw. set (s0 := begin_op c s).
+    pose proof (Stable_begin_op c s HS) as HS0. fold s0 in HS0.
+    destruct (Stable_Inv s0 HS0) as [HI0 _].
+    destruct (fsyn fc); [discriminate|].
+    destruct (if (clazy c && is_nil (frefs fc))%bool then _ else _) as [r s4] eqn:E4.
+    destruct (load_str_phase fs c s0 (anon_key fs s0) fc r s4 HI0 E4) as [Hst [Hc _]].
+    destruct r as [e1|]; [discriminate|]. intro H.
+    destruct (finish_main_ok_stable _ c _ _ _ s4 m s' (st_inv _ _ _ Hst) Hc H) as [_ [_ [_ [_ HS']]]]. exact HS'.
+Qed.
+
+Theorem load_str_ok_registered_raw fs c fc s m s' :
+  Stable s -> LocReg s -> load_str_raw fs c fc s = (inr m, s') ->
+  forall x g t, In (g, t) (local_of x s') -> (In x (vals s') \/ x = m) -> dget g (allm s') = Some t.
+Proof.
+  intros HS HL. unfold load_str_raw. set (s0 := begin_op c s).
+  pose proof (Stable_begin_op c s HS) as HS0. fold s0 in HS0.
+  destruct (Stable_Inv s0 HS0) as [HI0 _].
+  pose proof (Stable_LR s0 HS0 (LocReg_begin_op c s HL)) as HLR0. fold s0 in HLR0.
+  destruct (fsyn fc); [discriminate|].
+  destruct (if (clazy c && is_nil (frefs fc))%bool then _ else _) as [r s4] eqn:E4.
+  destruct (load_str_phase fs c s0 (anon_key fs s0) fc r s4 HI0 E4) as [Hst [Hc Hlr]].
+  destruct r as [e1|]; [discriminate|]. specialize (Hlr HLR0 eq_refl). intro H.
+  destruct (finish_main_ok_stable _ c _ _ _ s4 m s' (st_inv _ _ _ Hst) Hc H) as [-> [Ea [_ [El _]]]].
+  intros x g t Hin Hx. rewrite Ea. rewrite (local_of_ext s4 s' x El) in Hin. apply (Hlr x g t Hin).
+  destruct Hx as [Hx | ->]; [right; rewrite <- Ea; exact Hx | left; apply le_n].
+Qed.
+
+(* ---- the observed string load (with garbage collection) *)
+Theorem load_str_failure_clean fs c fc s e s' :
+  Stable s -> load_str fs c fc s = (inl e, s') ->
+  allm s' = allm (begin_op c s) /\ (forall x, x < length (heap s) -> local_of x s' = local_of x s) /\ Stable s'.
+Proof.
+  intros HS. unfold load_str, live_bound. destruct (load_str_raw fs c fc s) as [r s1] eqn:E. cbn [fst snd].
+  intro H. inversion H; subst r s'. clear H.
+  destruct (load_str_failure_clean_raw fs c fc s e s1 HS E) as [Ha [Hl HS1]].
+  destruct (load_str_raw_failure_frame fs c fc s e s1 HS E) as [Hf _].
+  assert (Hn : length (heap s) <= length (heap s1)).
+  { apply (f_equal (@length _)) in Hf. rewrite firstn_length in Hf. lia. }
+  split; [exact Ha|]. split; [intros x Hx; rewrite local_of_tidy_lt by exact Hx; apply Hl; exact Hx|].
+  destruct HS as [_ [_ [C [_ E5]]]].
+  apply Stable_tidy; [exact HS1 | exact Hn | |].
+  - intros k v Hin. rewrite Ha in Hin. unfold begin_op in Hin. destruct (cglobal c); cbn in Hin; [|destruct Hin].
+    destruct (C k v Hin) as [mi [H1 _]]. apply nth_error_Some. congruence.
+  - intros x g t Hx Hin. rewrite (Hl x Hx) in Hin. apply (E5 x g t Hin).
+Qed.
+
+Theorem load_str_stable fs c fc s : Stable s -> Stable (snd (load_str fs c fc s)).
+Proof.
+  intro HS. destruct (load_str fs c fc s) as [[e|m] s'] eqn:E; cbn [snd].
+  - destruct (load_str_failure_clean fs c fc s e s' HS E) as [_ [_ H]]. exact H.
+  - revert E. unfold load_str, live_bound. pose proof (load_str_stable_raw fs c fc s HS) as HS1.
+    destruct (load_str_raw fs c fc s) as [r s1]. cbn [fst snd] in *. intro H. inversion H; subst r s'.
+    pose proof HS1 as HS1'. destruct HS1 as [A [B [C [D E5]]]].
+    apply Stable_tidy; [exact HS1' | apply le_n | |].
+    + intros k v Hin. destruct (C k v Hin) as [mi [H1 _]]. apply nth_error_Some. congruence.
+    + intros x g t _ Hin. apply (E5 x g t Hin).
+Qed.
+
+Theorem load_str_ok_registered fs c fc s m s' :
+  Stable s -> LocReg s -> load_str fs c fc s = (inr m, s') ->
+  forall x g t, In (g, t) (local_of x s') -> (In x (vals s') \/ x = m) -> dget g (allm s') = Some t.
+Proof.
+  intros HS HL. unfold load_str, live_bound. destruct (load_str_raw fs c fc s) as [r s1] eqn:E. cbn [fst snd].
+  intro H. inversion H; subst r s'. intros x g t Hin Hx. rewrite allm_tidy in *.
+  apply In_local_of_tidy in Hin as [_ Hin]. eapply (load_str_ok_registered_raw fs c fc s m s1 HS HL E); eassumption.
+Qed.
+
+Theorem load_str_locreg fs c fc s : Stable s -> LocReg s -> LocReg (snd (load_str fs c fc s)).
+Proof.
+  intros HS HL. destruct (load_str fs c fc s) as [[e|m] s'] eqn:E; cbn [snd].
+  - destruct (load_str_failure_clean fs c fc s e s' HS E) as [Ha [Hl _]].
+    intros x g t Hin Hx. rewrite Ha in *. unfold begin_op in *. destruct (cglobal c); cbn [allm with_reads with_allm map] in *; [|destruct Hx].
+    assert (Hlt : x < length (heap s)).
+    { apply in_map_iff in Hx as [[k v] [<- Hx]]. destruct HS as [_ [_ [C _]]]. destruct (C k v Hx) as [mi [H _]]. apply nth_error_Some. cbn. congruence. }
+    rewrite (Hl x Hlt) in Hin. apply (HL x g t Hin Hx).
+  - intros x g t Hin Hx. eapply (load_str_ok_registered fs c fc s m s' HS HL E); [exact Hin | left; exact Hx].
+Qed.
+
+Theorem load_str_Tidy fs c fc s : Stable s -> Tidy (snd (load_str fs c fc s)).
+Proof.
+  intro HS. unfold load_str, live_bound. destruct (load_str_raw fs c fc s) as [[e|m] s1] eqn:E; cbn [fst snd]; apply tidy_Tidy; [|apply le_n].
+  destruct (load_str_raw_failure_frame fs c fc s e s1 HS E) as [Hf _].
+  apply (f_equal (@length _)) in Hf. rewrite firstn_length in Hf. lia.
+Qed.
+
+Theorem failed_load_str_restores_state fs c fc s e s' :
+  Stable s -> Tidy s -> load_str fs c fc s = (inl e, s') ->
+  heap s' = heap s /\ allm s' = allm (begin_op c s) /\ locals s' = locals s /\ constr s' = constr s /\
+  targets s' = targets s /\ curop s' = curop s.
+Proof.
+  intros HS [T1 [T2 T3]] H.
+  destruct (load_str_failure_clean fs c fc s e s' HS H) as [Ha _].
+  revert H. unfold load_str, live_bound. destruct (load_str_raw fs c fc s) as [r s1] eqn:E. cbn [fst snd].
+  intro H. inversion H; subst r s'. clear H.
+  destruct (load_str_failure_clean_raw fs c fc s e s1 HS E) as [_ [Hl _]].
+  destruct (load_str_raw_failure_frame fs c fc s e s1 HS E) as [Fh [Fc [Ft Fo]]].
+  split; [exact Fh|]. split; [exact Ha|]. split; [|split; [|split]].
+  - cbn [locals tidy]. rewrite T3. apply norm_locals_ext. exact Hl.
+  - cbn [constr tidy]. rewrite Fc. apply filter_id. intros x Hx. apply Nat.ltb_lt. apply T1. exact Hx.
+  - cbn [targets tidy]. rewrite Ft. apply filter_id. intros kv Hk. apply Nat.ltb_lt. apply T2. exact Hk.
+  - exact Fo.
+Qed.
+
+Lemma load_str_begin_op fs c fc a b :
+  begin_op c a = begin_op c b -> length (heap a) = length (heap b) -> load_str fs c fc a = load_str fs c fc b.
+Proof. intros H Hl. unfold load_str, live_bound, load_str_raw. rewrite H, Hl. reflexivity. Qed.
+
+(* whatever failed (a file load or a string load), whatever follows (a file load or a string load) is literally
+   what it would have been without the failed attempt *)
+Lemma restored_state_same_loads c s s' :
+  heap s' = heap s /\ allm s' = allm (begin_op c s) /\ locals s' = locals s /\ constr s' = constr s /\
+  targets s' = targets s /\ curop s' = curop s ->
+  (forall fs' f', load_main fs' c f' s' = load_main fs' c f' s) /\
+  (forall fs' fc', load_str fs' c fc' s' = load_str fs' c fc' s).
+Proof.
+  intros [Eh [Ea [El [Ec [Et Eo]]]]].
+  assert (Eb : begin_op c s' = begin_op c s).
+  { unfold begin_op in *. destruct s as [h a l co t r o], s' as [h' a' l' co' t' r' o']. cbn in *. subst.
+    destruct (cglobal c); cbn in *; subst; reflexivity. }
+  split; intros; [apply load_main_begin_op | apply load_str_begin_op]; try exact Eb; rewrite Eh; reflexivity.
+Qed.
+
+Theorem next_load_as_if_never_failed c s s' :
+  Stable s -> Tidy s ->
+  (exists fs f e, load_main fs c f s = (inl e, s')) \/ (exists fs fc e, load_str fs c fc s = (inl e, s')) ->
+  (forall fs' f', load_main fs' c f' s' = load_main fs' c f' s) /\
+  (forall fs' fc', load_str fs' c fc' s' = load_str fs' c fc' s).
+Proof.
+  intros HS HT [[fs [f [e H]]]|[fs [fc [e H]]]]; apply restored_state_same_loads.
+  - exact (failed_load_restores_state fs c f s e s' HS HT H).
+  - exact (failed_load_str_restores_state fs c fc s e s' HS HT H).
+Qed.
+
 Theorem run_hist_stable_tidy c ops : forall fs s, Stable s -> Tidy s -> Stable (run_hist c fs s ops) /\ Tidy (run_hist c fs s ops).
 Proof.
-  induction ops as [|[f|f fc] t IH]; intros fs s HS HT; cbn; [auto | | apply IH; assumption].
-  apply IH; [apply load_main_stable; exact HS | apply load_main_Tidy; exact HS].
+  induction ops as [|[f|f fc|fc] t IH]; intros fs s HS HT; cbn; [auto | | apply IH; assumption | ].
+  - apply IH; [apply load_main_stable; exact HS | apply load_main_Tidy; exact HS].
+  - apply IH; [apply load_str_stable; exact HS | apply load_str_Tidy; exact HS].
 Qed.
 
 (* a failing load can be dropped from a history: what follows is unchanged *)
@@ -1684,8 +1921,9 @@ Qed.
 
 Theorem run_hist_stable c ops : forall fs s, Stable s -> Stable (run_hist c fs s ops).
 Proof.
-  induction ops as [|[f|f fc] t IH]; intros fs s HS; cbn; [exact HS | | apply IH; exact HS].
-  apply IH. apply load_main_stable. exact HS.
+  induction ops as [|[f|f fc|fc] t IH]; intros fs s HS; cbn; [exact HS | | apply IH; exact HS | ].
+  - apply IH. apply load_main_stable. exact HS.
+  - apply IH. apply load_str_stable. exact HS.
 Qed.
 
 (* history-level corollaries *)
@@ -1731,8 +1969,9 @@ Qed.
 
 Theorem run_hist_locreg c ops : forall fs s, Stable s -> LocReg s -> LocReg (run_hist c fs s ops).
 Proof.
-  induction ops as [|[f|f fc] t IH]; intros fs s HS HL; cbn; [exact HL | | apply IH; assumption].
-  apply IH; [apply load_main_stable; exact HS | apply load_main_locreg; assumption].
+  induction ops as [|[f|f fc|fc] t IH]; intros fs s HS HL; cbn; [exact HL | | apply IH; assumption | ].
+  - apply IH; [apply load_main_stable; exact HS | apply load_main_locreg; assumption].
+  - apply IH; [apply load_str_stable; exact HS | apply load_str_locreg; assumption].
 Qed.
 
 Theorem identity_after_load fs c f s m s' x n t i :
@@ -1759,4 +1998,38 @@ Proof.
   eapply (identity_after_load fs c f s m s' x n t i); try eassumption.
   - apply run_hist_stable, Stable_init.
   - apply run_hist_locreg; [apply Stable_init | apply LocReg_init].
+Qed.
+
+Theorem identity_after_load_str fs c fc s m s' x n t i :
+  Stable s -> LocReg s -> load_str fs c fc s = (inr m, s') ->
+  In x (included m s') -> resolve_name c s' x n = Some (t, i) ->
+  t = x \/ In t (cbuiltins c) \/ (dget (file_of t s') (allm s') = Some t).
+Proof.
+  intros HS HL E Hx Hr. destruct (resolve_name_in c s' x n t i Hr) as [[H|[H|H]] _]; [left; exact H | | right; left; exact H].
+  right. right. apply in_map_iff in H as [[g t'] [Ht Hin]]. cbn in Ht. subst t'.
+  assert (Hreg : dget g (allm s') = Some t).
+  { apply (load_str_ok_registered fs c fc s m s' HS HL E x g t Hin). apply In_included in Hx. exact Hx. }
+  pose proof (load_str_stable fs c fc s HS) as HS'. rewrite E in HS'. cbn in HS'.
+  destruct HS' as [_ [_ [C _]]]. destruct (C g t (dget_In _ _ _ Hreg)) as [mi [H1 H2]].
+  unfold file_of. rewrite H1, H2. exact Hreg.
+Qed.
+
+Theorem identity_in_history_str c b fs0 ops fs fc m s' x n t i :
+  let s := run_hist c fs0 (init_state b) ops in
+  load_str fs c fc s = (inr m, s') -> In x (included m s') -> resolve_name c s' x n = Some (t, i) ->
+  t = x \/ In t (cbuiltins c) \/ dget (file_of t s') (allm s') = Some t.
+Proof.
+  intros s E Hx Hr. eapply (identity_after_load_str fs c fc s m s' x n t i); try eassumption.
+  - apply run_hist_stable, Stable_init.
+  - apply run_hist_locreg; [apply Stable_init | apply LocReg_init].
+Qed.
+
+Theorem next_load_in_history c b fs0 ops s' :
+  let s := run_hist c fs0 (init_state b) ops in
+  (exists fs f e, load_main fs c f s = (inl e, s')) \/ (exists fs fc e, load_str fs c fc s = (inl e, s')) ->
+  (forall fs' f', load_main fs' c f' s' = load_main fs' c f' s) /\
+  (forall fs' fc', load_str fs' c fc' s' = load_str fs' c fc' s).
+Proof.
+  intros s H. destruct (run_hist_stable_tidy c ops fs0 (init_state b) (Stable_init b) (Tidy_init b)) as [HS HT].
+  exact (next_load_as_if_never_failed c s s' HS HT H).
 Qed.
